@@ -44,6 +44,7 @@ var engineBProps = map[string]*engineB{
 	"C11": {design: "4/C11"},
 	"C12": {design: "4/C12"},
 	"C13": {design: "4/C13", fine: []string{"bus/signal.go", "bus/proxy.go", "bus/client.go"}},
+	"C14": {design: "4/C14", fine: []string{"bus/object.go"}},
 	"C17": {design: "4/C17"},
 }
 
